@@ -49,9 +49,10 @@ def corpus(args):
     idx = index()
     print("| # | rewrite | checks | before | after: translator + `SrcEq` lemmas | after: `./check` (quick) |")
     print("|---|---|---|---|---|---|")
-    groups = {"tuning set 01-71": [0, 0, 0, 0, 0], "held-out 1 (72-83)": [0, 0, 0, 0, 0], "held-out 2 (84-95)": [0, 0, 0, 0, 0]}
+    groups = {"tuning set 01-71": [0, 0, 0, 0, 0], "held-out 1 (72-83)": [0, 0, 0, 0, 0], "held-out 2 (84-95)": [0, 0, 0, 0, 0],
+              "iterator idioms 96-98 (written with C9)": [0, 0, 0, 0, 0]}
     for k in sorted(idx):
-        g = "tuning set 01-71" if int(k) <= 71 else ("held-out 1 (72-83)" if int(k) <= 83 else "held-out 2 (84-95)")
+        g = "tuning set 01-71" if int(k) <= 71 else ("held-out 1 (72-83)" if int(k) <= 83 else ("held-out 2 (84-95)" if int(k) <= 95 else "iterator idioms 96-98 (written with C9)"))
         before = check_cell(bc.get(k)) if int(k) <= 71 else fast_cell(bf.get(k))
         nb = noisy_check(bc.get(k)) if int(k) <= 71 else noisy_fast(bf.get(k))
         after_f, after_c = fast_cell(af.get(k)), check_cell(ac.get(k))
